@@ -58,4 +58,3 @@ package parser
 //@ func (parser) errorf
 //@   results err
 //@   ensures err != nil
-
